@@ -74,6 +74,11 @@ Fixpoint leaves_of (anc : list matcher) (r : rule) : list (list matcher * matche
 Definition leaves (l : list rule) : list (list matcher * matcher * N) :=
   flat_map (leaves_of []) l.
 
+(* a string pattern must match the whole path; a precompiled one is used with Pattern.match *)
+Definition pm_strict (p : pathm) (path : str) : bool :=
+  if pm_whole p then rx_full (pm_rx p) path
+  else match rx_match (pm_rx p) path with Some _ => true | None => false end.
+
 (* strict acceptance: the matcher's pattern matches the whole host / path *)
 Definition m_strict (rq : request) (m : matcher) : bool :=
   match m with
@@ -81,7 +86,7 @@ Definition m_strict (rq : request) (m : matcher) : bool :=
   | MHost r => rx_full r (rq_host rq)
   | MDefHost r d =>   (* configuration constant, not the request: the code's own test *)
       negb (rq_xreal rq) && match rx_match r d with Some _ => true | None => false end
-  | MPath p => rx_full (pm_rx p) (rq_path rq)
+  | MPath p => pm_strict p (rq_path rq)
   end.
 
 Definition leaf_strict (rq : request) (lf : list matcher * matcher * N) : bool :=
@@ -145,7 +150,61 @@ Fixpoint spec_url (ps : list piece) (args : list (list N)) : option str :=
 
 Definition is_bytes (l : list N) : bool := forallb (fun b => b <? 256) l.
 
-(* scope of the round trip: [name] denotes a leaf with a
+(* ---------- plainly written patterns ---------- *)
+(* a pattern text made of plain literal characters, backslash-escaped literals and
+   unnested groups; [plain_segs] recognises such texts *)
+Inductive seg := SLit (c : N) (esc : bool) | SGrp (body : str) (items : list item).
+
+Definition lit_item (c : N) : item := mkItem (CChar c) 1 (Some 1%nat) true.
+Definition seg_text (sg : seg) : str :=
+  match sg with
+  | SLit c false => [c]
+  | SLit c true => [92; c]
+  | SGrp b _ => 40 :: b ++ [41]
+  end.
+Definition pat_text (segs : list seg) : str := flat_map seg_text segs.
+Definition seg_piece (sg : seg) : piece :=
+  match sg with SLit c _ => PIt (lit_item c) | SGrp _ its => PGrp its end.
+
+(* characters with a meaning in `re` syntax *)
+Definition is_special (c : N) : bool :=
+  existsb (N.eqb c) [92; 46; 94; 36; 42; 43; 63; 123; 125; 91; 93; 124; 40; 41].
+
+Definition items_of (ts : list token) : option (list item) :=
+  map_opt (fun t => match t with TItem i => Some i | _ => None end) ts.
+
+Inductive pmode := PTop | PEsc | PBody (b : str).
+
+Fixpoint plain_scan (s : str) (mode : pmode) (acc : list seg) : option (list seg) :=
+  match s with
+  | [] => match mode with PTop => Some (rev acc) | _ => None end
+  | c :: r =>
+      match mode with
+      | PTop =>
+          if c =? 92 then plain_scan r PEsc acc
+          else if c =? 40 then plain_scan r (PBody []) acc
+          else if is_special c then None
+          else plain_scan r PTop (SLit c false :: acc)
+      | PEsc =>
+          if is_alnum c || (c =? 40) || (c =? 41) then None
+          else plain_scan r PTop (SLit c true :: acc)
+      | PBody b =>
+          if c =? 41 then
+            match lexf (rev b) with
+            | Some ts =>
+                match items_of ts with
+                | Some its => plain_scan r PTop (SGrp (rev b) its :: acc)
+                | None => None
+                end
+            | None => None
+            end
+          else if c =? 40 then None
+          else plain_scan r (PBody (c :: b)) acc
+      end
+  end.
+Definition plain_segs (t : str) : option (list seg) := plain_scan t PTop [].
+
+(* scope of the round trip: [name] denotes a leaf with a plainly written
    literal-plus-groups path pattern; byte-string arguments; for the expected URL
    the first strictly accepting leaf has that handler and its pattern parses the
    path in exactly one way, the groups spanning the quoted arguments
@@ -156,7 +215,7 @@ Definition roundtrip_expect (a : app) (name : str) (args : list (list N)) (host 
   : option (str * N) :=
   match lookup_rule name (RNode MAny None (app_rules a)) with
   | Some (RLeaf (MPath p) _ h) =>
-      if forallb is_bytes args then
+      if match plain_segs (pm_text p) with Some _ => pm_whole p && forallb is_bytes args | None => false end then
         match spec_url (rx_pieces (pm_rx p)) args with
         | Some u =>
             let rq := mk_request host u false in
@@ -165,7 +224,7 @@ Definition roundtrip_expect (a : app) (name : str) (args : list (list N)) (host 
             | Some (_, MPath p', h') =>
                 match all_parses (pm_rx p') (rq_path rq) with
                 | [caps] =>
-                    if (h' =? h) && caps_eqb caps (map quote_arg args) then Some (u, h) else None
+                    if pm_whole p' && (h' =? h) && caps_eqb caps (map quote_arg args) then Some (u, h) else None
                 | _ => None
                 end
             | _ => None
